@@ -1,1 +1,89 @@
-(* placeholder *)
+(* Paths.v -- executable model of the relative paths pilota-build emits between modules (C14).
+
+   Modelled code: pilota-build/src/middle/resolver.rs
+     DefaultPathResolver::related_path (lines 72-106), WorkspacePathResolver::related_path (142-148)
+   and its callers Context::related_item_path / cur_related_item_path (context.rs 901-918):
+     p1 = item_path(current item) without its last segment   (the module the text is written into)
+     p2 = item_path(target)                                   (module path ++ [item] or ++ [enum; variant])
+   Both are lists of *unescaped* Symbols; the comparison p1[i] == p2[i] is on the unescaped names, the
+   segments are written through Symbol's Display -- except in the p1 == p2 branch, which returns the raw
+   last segment.  A module is emitted as `pub mod <display name>`.  No proofs here. *)
+From Coq Require Import String List Bool Arith.
+From PVBld Require Import Names.
+Import ListNotations.
+Open Scope string_scope.
+Open Scope list_scope.
+
+Fixpoint list_eqb (a b : list string) : bool :=
+  match a, b with
+  | [], [] => true
+  | x :: a', y :: b' => (x =? y) && list_eqb a' b'
+  | _, _ => false
+  end.
+
+(* while i < p1.len() && i < p2.len() && p1[i] == p2[i] { i += 1 } *)
+Fixpoint common_prefix_len (a b : list string) : nat :=
+  match a, b with
+  | x :: a', y :: b' => if x =? y then S (common_prefix_len a' b') else 0
+  | _, _ => 0
+  end.
+
+Fixpoint last_opt (l : list string) : option string :=
+  match l with [] => None | [x] => Some x | _ :: r => last_opt r end.
+
+(* None = panic (p2.last().unwrap() on an empty slice) *)
+Definition related_path (p1 p2 : list string) : option (list string) :=
+  if list_eqb p1 p2 then
+    match last_opt p2 with
+    | Some l => Some [l]                       (* p2.last().unwrap().clone().0 : NOT escaped *)
+    | None => None
+    end
+  else
+    let i := common_prefix_len p1 p2 in
+    Some (repeat "super" (length p1 - i) ++ map display (skipn i p2)).
+
+(* WorkspacePathResolver: same crate (first segment) -> as above; otherwise an absolute path.
+   None = panic (index 0 of an empty slice) *)
+Inductive wpath := WRel (segs : list string) | WAbs (segs : list string).
+Definition wrelated_path (p1 p2 : list string) : option wpath :=
+  match p1, p2 with
+  | c1 :: _, c2 :: _ =>
+      if c2 =? c1 then option_map WRel (related_path p1 p2) else Some (WAbs (map display p2))
+  | _, _ => None
+  end.
+
+(* ---- what the text means to rustc ---------------------------------------------------------
+   A relative path written inside module [cur] (emitted names, from the root of the generated file):
+   leading `super`s walk up, the remaining segments walk down; the LAST segment names an item inside
+   the module reached by the others.  A path made of `super`s only names a module, not an item;
+   `super` above the root or after an identifier is an error.  Result: (module, item). *)
+Fixpoint strip_supers (cur : list string) (rel : list string) : option (list string * list string) :=
+  match rel with
+  | s :: r =>
+      if s =? "super" then
+        match cur with
+        | [] => None
+        | _ => strip_supers (removelast cur) r
+        end
+      else Some (cur, rel)
+  | [] => Some (cur, [])
+  end.
+
+Definition resolve_item (cur rel : list string) : option (list string * string) :=
+  match strip_supers cur rel with
+  | Some (m, rest) =>
+      if existsb (fun s => s =? "super") rest then None
+      else match last_opt rest with
+           | Some it => Some (m ++ removelast rest, it)
+           | None => None
+           end
+  | None => None
+  end.
+
+(* p is a prefix of q *)
+Fixpoint is_prefix (p q : list string) : bool :=
+  match p, q with
+  | [], _ => true
+  | x :: p', y :: q' => (x =? y) && is_prefix p' q'
+  | _ :: _, [] => false
+  end.
